@@ -787,6 +787,46 @@ func runC14Sequential(t *fw.T) {
 			}
 		}
 	}
+	// ONE lexer builder serving several parser builders with different modes (and one of them reconfigured later): each
+	// parser builder behaves like one that has its lexer builder to itself
+	{
+		inputs := []string{"let s = \"abc", "let t = `x\ny", "a b\n{ c", "f(a\n(b))\n[c]", "let q = 'it", "x = 1\n(y)", "ok(1)"}
+		for ji := 0; ji < 2 && ji < len(idxs); ji++ {
+			inputs = append(inputs, makeJob(st.seed, idxs[ji]).Src)
+		}
+		bad := false
+		t.Guard("parser builders sharing a lexer builder", nil, func() {
+			lb := lexer.NewBuilder()
+			bs := []*parser.Builder{
+				parser.NewBuilder(lb).WithTolerantMode(true),
+				parser.NewBuilder(lb),
+				parser.NewBuilder(lb).WithSmartSemicolon(true),
+				parser.NewBuilder(lb).WithTolerantMode(true).WithSmartSemicolon(true),
+			}
+			ms := []Mode{{Tolerant: true}, {}, {Smart: true}, {Tolerant: true, Smart: true}}
+			for round := 0; round < 2 && !bad; round++ {
+				for _, bi := range r.Perm(len(bs)) {
+					src := inputs[r.IntN(len(inputs))]
+					p := bs[bi].Build(src)
+					prog, _ := p.ParseProgram()
+					want := parse(src, ms[bi])
+					t.Count("parses_by_builders_sharing_a_lexer_builder", 1)
+					if !reflect.DeepEqual(p.Errors(), want.Errors) || !reflect.DeepEqual(prog, want.Prog) {
+						t.Violate("shared-lexer-builder-leaks", "modes", fmt.Sprintf("a %s parser builder that shares its lexer builder with parser builders of other modes parses %q differently from one that has its own lexer builder", ms[bi], clip(src, 80)),
+							map[string]any{"source": src, "mode": ms[bi].String(), "errors": p.Errors(), "errors_with_own_lexer_builder": want.Errors})
+						bad = true
+						break
+					}
+				}
+				// a sibling is switched back to strict: the others keep their modes
+				bs[0].WithTolerantMode(false)
+				ms[0] = Mode{}
+			}
+		})
+		if bad {
+			return
+		}
+	}
 	// compilers configured from ONE option list that the caller goes on using (appends to it, overwrites an entry for
 	// the next compiler): each compiler keeps the configuration it was given when it was created
 	if len(trees) > 0 {
